@@ -12,7 +12,7 @@ import (
 )
 
 func init() {
-	register("C10", checkC10, "Static bounds/no-panic analysis of every parsing entry point: each exported function of package packet whose first parameter is []byte (request/response parsers, dispatchers, header parser, exception recognisers, stream classifier, CRC16) is abstractly interpreted context-free (any input, any capacity) with all module-local callees inlined. Every index, slice, make, encoding/binary access and unchecked type assertion reachable from it yields an obligation against len (never cap), discharged by a relational abstract domain (linear facts from dominating guards and callee summaries, Fourier-Motzkin entailment with integer tightening, rule W for narrow-typed arithmetic). R10.3 checks on every return path that a non-nil error is accompanied by a nil value or nil pointer. What is decided is the absence of the panic/over-read conditions for ALL inputs under the stated engine assumptions; nothing is executed. Index obligations also cover arrays the engine does not model as buffers (package-level tables, array-typed fields): 0 <= index < N with N from the type.")
+	register("C10", checkC10, "Static bounds/no-panic analysis of every parsing entry point: each exported function of package packet whose first parameter is []byte (request/response parsers, dispatchers, header parser, exception recognisers, stream classifier, CRC16) is abstractly interpreted context-free (any input, any capacity) with all module-local callees inlined. Every index, slice, make, encoding/binary access and unchecked type assertion reachable from it yields an obligation against len (never cap), discharged by a relational abstract domain (linear facts from dominating guards and callee summaries, Fourier-Motzkin entailment with integer tightening, rule W for narrow-typed arithmetic). R10.3 checks on every return path that a non-nil error is accompanied by a nil value or nil pointer. What is decided is the absence of the panic/over-read conditions for ALL inputs under the stated engine assumptions; nothing is executed. Index obligations also cover arrays the engine does not model as buffers (package-level tables, array-typed fields): 0 <= index < N with N from the type. R10.3 counts an interface holding a nil pointer as a nil value. Obligations of a helper inlined under several call contexts are kept per context when one fails.")
 }
 
 // parseEntryPoints: exported functions of pkg whose first parameter is []byte.
